@@ -3006,39 +3006,37 @@ let rec eval_node g names sw steady t u c =
                   (match o with
                    | Bind ->
                      let c0 = set_free c (sinsert x d c.free_doms) in
-                     bind
-                       (match d with
-                        | Some dl ->
-                          (match alookup str_eqb dl c0.domain_sets with
-                           | Some dset ->
-                             bind (hctl_var_id g x) (fun e ->
-                               let var_domain =
-                                 compute_valid_domain_for_var g u dset e
-                               in
-                               let ur = tand u var_domain in
-                               if is_empty ur
-                               then Ok
-                                      ((match o with
-                                        | Forall -> u
-                                        | _ -> empty g), c0)
-                               else bind
-                                      (eval_node g names sw steady ch ur c0)
-                                      (fun pat ->
-                                      let (a, c1) = pat in
-                                      bind
-                                        (eval_hybrid_quantifier g u ur o e a)
-                                        (fun r -> Ok (r, c1))))
-                           | None -> Panic PDomainLookup)
-                        | None ->
-                          bind (eval_node g names sw steady ch u c0)
-                            (fun pat ->
-                            let (a, c1) = pat in
-                            bind (hctl_var_id g x) (fun e ->
-                              bind (eval_hybrid_quantifier g u u o e a)
-                                (fun r -> Ok (r, c1))))) (fun pat ->
-                       let (r, c1) = pat in
-                       finish (r,
-                         (set_free c1 (aremove str_eqb x c1.free_doms))))
+                     let close = fun c1 ->
+                       set_free c1 (aremove str_eqb x c1.free_doms)
+                     in
+                     (match d with
+                      | Some dl ->
+                        (match alookup str_eqb dl c0.domain_sets with
+                         | Some dset ->
+                           bind (hctl_var_id g x) (fun e ->
+                             let var_domain =
+                               compute_valid_domain_for_var g u dset e
+                             in
+                             let ur = tand u var_domain in
+                             if is_empty ur
+                             then Ok
+                                    ((match o with
+                                      | Forall -> u
+                                      | _ -> empty g), (close c0))
+                             else bind (eval_node g names sw steady ch ur c0)
+                                    (fun pat ->
+                                    let (a, c1) = pat in
+                                    bind
+                                      (eval_hybrid_quantifier g u ur o e a)
+                                      (fun r -> finish (r, (close c1)))))
+                         | None -> Panic PDomainLookup)
+                      | None ->
+                        bind (eval_node g names sw steady ch u c0)
+                          (fun pat ->
+                          let (a, c1) = pat in
+                          bind (hctl_var_id g x) (fun e ->
+                            bind (eval_hybrid_quantifier g u u o e a)
+                              (fun r -> finish (r, (close c1))))))
                    | Jump ->
                      bind (eval_node g names sw steady ch u c) (fun pat ->
                        let (a, c1) = pat in
@@ -3046,74 +3044,70 @@ let rec eval_node g names sw steady t u c =
                          finish ((eval_jump g u a e), c1)))
                    | Exists ->
                      let c0 = set_free c (sinsert x d c.free_doms) in
-                     bind
-                       (match d with
-                        | Some dl ->
-                          (match alookup str_eqb dl c0.domain_sets with
-                           | Some dset ->
-                             bind (hctl_var_id g x) (fun e ->
-                               let var_domain =
-                                 compute_valid_domain_for_var g u dset e
-                               in
-                               let ur = tand u var_domain in
-                               if is_empty ur
-                               then Ok
-                                      ((match o with
-                                        | Forall -> u
-                                        | _ -> empty g), c0)
-                               else bind
-                                      (eval_node g names sw steady ch ur c0)
-                                      (fun pat ->
-                                      let (a, c1) = pat in
-                                      bind
-                                        (eval_hybrid_quantifier g u ur o e a)
-                                        (fun r -> Ok (r, c1))))
-                           | None -> Panic PDomainLookup)
-                        | None ->
-                          bind (eval_node g names sw steady ch u c0)
-                            (fun pat ->
-                            let (a, c1) = pat in
-                            bind (hctl_var_id g x) (fun e ->
-                              bind (eval_hybrid_quantifier g u u o e a)
-                                (fun r -> Ok (r, c1))))) (fun pat ->
-                       let (r, c1) = pat in
-                       finish (r,
-                         (set_free c1 (aremove str_eqb x c1.free_doms))))
+                     let close = fun c1 ->
+                       set_free c1 (aremove str_eqb x c1.free_doms)
+                     in
+                     (match d with
+                      | Some dl ->
+                        (match alookup str_eqb dl c0.domain_sets with
+                         | Some dset ->
+                           bind (hctl_var_id g x) (fun e ->
+                             let var_domain =
+                               compute_valid_domain_for_var g u dset e
+                             in
+                             let ur = tand u var_domain in
+                             if is_empty ur
+                             then Ok
+                                    ((match o with
+                                      | Forall -> u
+                                      | _ -> empty g), (close c0))
+                             else bind (eval_node g names sw steady ch ur c0)
+                                    (fun pat ->
+                                    let (a, c1) = pat in
+                                    bind
+                                      (eval_hybrid_quantifier g u ur o e a)
+                                      (fun r -> finish (r, (close c1)))))
+                         | None -> Panic PDomainLookup)
+                      | None ->
+                        bind (eval_node g names sw steady ch u c0)
+                          (fun pat ->
+                          let (a, c1) = pat in
+                          bind (hctl_var_id g x) (fun e ->
+                            bind (eval_hybrid_quantifier g u u o e a)
+                              (fun r -> finish (r, (close c1))))))
                    | Forall ->
                      let c0 = set_free c (sinsert x d c.free_doms) in
-                     bind
-                       (match d with
-                        | Some dl ->
-                          (match alookup str_eqb dl c0.domain_sets with
-                           | Some dset ->
-                             bind (hctl_var_id g x) (fun e ->
-                               let var_domain =
-                                 compute_valid_domain_for_var g u dset e
-                               in
-                               let ur = tand u var_domain in
-                               if is_empty ur
-                               then Ok
-                                      ((match o with
-                                        | Forall -> u
-                                        | _ -> empty g), c0)
-                               else bind
-                                      (eval_node g names sw steady ch ur c0)
-                                      (fun pat ->
-                                      let (a, c1) = pat in
-                                      bind
-                                        (eval_hybrid_quantifier g u ur o e a)
-                                        (fun r -> Ok (r, c1))))
-                           | None -> Panic PDomainLookup)
-                        | None ->
-                          bind (eval_node g names sw steady ch u c0)
-                            (fun pat ->
-                            let (a, c1) = pat in
-                            bind (hctl_var_id g x) (fun e ->
-                              bind (eval_hybrid_quantifier g u u o e a)
-                                (fun r -> Ok (r, c1))))) (fun pat ->
-                       let (r, c1) = pat in
-                       finish (r,
-                         (set_free c1 (aremove str_eqb x c1.free_doms)))))))
+                     let close = fun c1 ->
+                       set_free c1 (aremove str_eqb x c1.free_doms)
+                     in
+                     (match d with
+                      | Some dl ->
+                        (match alookup str_eqb dl c0.domain_sets with
+                         | Some dset ->
+                           bind (hctl_var_id g x) (fun e ->
+                             let var_domain =
+                               compute_valid_domain_for_var g u dset e
+                             in
+                             let ur = tand u var_domain in
+                             if is_empty ur
+                             then Ok
+                                    ((match o with
+                                      | Forall -> u
+                                      | _ -> empty g), (close c0))
+                             else bind (eval_node g names sw steady ch ur c0)
+                                    (fun pat ->
+                                    let (a, c1) = pat in
+                                    bind
+                                      (eval_hybrid_quantifier g u ur o e a)
+                                      (fun r -> finish (r, (close c1)))))
+                         | None -> Panic PDomainLookup)
+                      | None ->
+                        bind (eval_node g names sw steady ch u c0)
+                          (fun pat ->
+                          let (a, c1) = pat in
+                          bind (hctl_var_id g x) (fun e ->
+                            bind (eval_hybrid_quantifier g u u o e a)
+                              (fun r -> finish (r, (close c1)))))))))
 
 type world = { w_p : nat; w_n : nat; w_names : str list; w_upd : tt list;
                w_unit : tt }
